@@ -368,3 +368,45 @@ package netceptor
 //@   safety
 //@   requires ci != nil && sess != nil && ci.Context != nil && ci.CancelFunc != nil
 //@   modifies nothing
+
+// ---- C09: the TLS peer verification closure and the per-connection configurations built around it
+
+//@ spec digest(raw []byte, n int) []byte := uf("digest", "[]byte", ref(raw), off(raw), len(raw), n)
+//@ spec pinmatch(fing []byte, raw []byte) bool := bytes.Equal(fing, digest(raw, 28)) || bytes.Equal(fing, digest(raw, 32)) || bytes.Equal(fing, digest(raw, 48)) || bytes.Equal(fing, digest(raw, 64))
+//@ spec cached(c []byte, raw []byte, n int) bool := c == nil || c == digest(raw, n)
+
+// the four digest closures of the length table: assumed to return the digest of their argument (crypto/sha256,
+// crypto/sha512 are outside the model); that they write nothing is proved
+//@ func ReceptorVerifyFunc$1$1
+//@   modifies nothing
+//@   ensures TRUSTED_DIGEST: result == digest(data, len(result)) && result != nil
+//@ func ReceptorVerifyFunc$1$2
+//@   modifies nothing
+//@   ensures TRUSTED_DIGEST: result == digest(data, len(result)) && result != nil
+//@ func ReceptorVerifyFunc$1$3
+//@   modifies nothing
+//@   ensures TRUSTED_DIGEST: result == digest(data, len(result)) && result != nil
+//@ func ReceptorVerifyFunc$1$4
+//@   modifies nothing
+//@   ensures TRUSTED_DIGEST: result == digest(data, len(result)) && result != nil
+
+//@ func ReceptorVerifyFunc$1
+//@   tags C09
+//@   dyncall func(data []byte) []byte targets ReceptorVerifyFunc$1$1, ReceptorVerifyFunc$1$2, ReceptorVerifyFunc$1$3, ReceptorVerifyFunc$1$4
+//@   loop range rawCerts
+//@     invariant PARSED: [C09] len(certs) == len(rawCerts) && forall j int :: 0 <= j && j <= rangeindex ==> certs[j] != nil
+//@   loop range pinnedFingerprints
+//@     invariant CACHE: [C09] cached(sha224sum, certs[0].Raw, 28) && cached(sha256sum, certs[0].Raw, 32) && cached(sha384sum, certs[0].Raw, 48) && cached(sha512sum, certs[0].Raw, 64)
+//@     invariant MATCH: [C09] fingerprintOK ==> exists j int :: 0 <= j && j < len(pinnedFingerprints) && pinmatch(pinnedFingerprints[j], certs[0].Raw)
+//@   loop range []struct {...
+//@     invariant CACHE2: [C09] cached(sha224sum, certs[0].Raw, 28) && cached(sha256sum, certs[0].Raw, 32) && cached(sha384sum, certs[0].Raw, 48) && cached(sha512sum, certs[0].Raw, 64)
+//@     invariant MATCH2: [C09] fingerprintOK ==> exists j int :: 0 <= j && j < len(pinnedFingerprints) && pinmatch(pinnedFingerprints[j], certs[0].Raw)
+//@   site call Verify PINMATCH: [C09] requires len(pinnedFingerprints) > 0 ==> exists j int :: 0 <= j && j < len(pinnedFingerprints) && pinmatch(pinnedFingerprints[j], certs[0].Raw)
+//@   site call Verify CHAIN: [C09] requires arg0 == certs[0] && (verifyType == VerifyServer || verifyType == VerifyClient)
+//@        && arg1.Roots == (verifyType == VerifyServer ? tlscfg.RootCAs : tlscfg.ClientCAs)
+//@        && len(arg1.KeyUsages) == 1 && arg1.KeyUsages[0] == (verifyType == VerifyServer ? 1 : 2)
+//@        && arg1.DNSName == ((expectedHostnameType == ExpectedHostnameTypeDNS) ? expectedHostname : "")
+//@   site call Verify PINNED: [C09] requires len(pinnedFingerprints) > 0 ==> fingerprintOK
+//@   site call ParseReceptorNamesFromCert NAME: [C09] requires arg0 == certs[0] && arg1 == expectedHostname
+//@   ensures ACCEPT: [C09] result == nil ==> len(rawCerts) > 0 && lastcall("Verify", 1) == nil
+//@        && (expectedHostnameType == ExpectedHostnameTypeReceptor ==> lastcall("ParseReceptorNamesFromCert", 0) && lastcall("ParseReceptorNamesFromCert", 2) == nil)
